@@ -349,7 +349,60 @@ def vocabulary():
     return v
 
 
+_OPS = [B.tok('p', c) for c in ('+', '-', '*', '/', '%', '<', '<=', '>', '>=', '=', '!=', '~', '!~')] + \
+       [B.tok('kw', 'AND'), B.tok('kw', 'OR'), B.tok('kw', 'IN')]
+_ATOMS = [B.tok('id', 'a'), B.tok('id', 'zz9'), B.tok('int', '', [4, 2]), B.tok('dec', '', [-1, 5]), B.tok('dec', '', [3, -1]),
+          B.tok('str', 's2'), B.tok('date', '', [2020, 10, 10]), B.tok('kw', 'TRUE'), B.tok('id', 'null'), B.tok('p', '%s')]
+
+
+def _is_op(t):
+    return (t['t'] == 'p' and t['s'] in '+-*/%<<=>>==!=~!~' and t['s'] not in ('(', ')', ',', '.', '[', ']', '%s', '%(', ')s')) \
+        or (t['t'] == 'kw' and t['s'] in ('AND', 'OR', 'IN'))
+
+
+def _is_atom(t):
+    return t['t'] in ('int', 'dec', 'date', 'str') or (t['t'] == 'id' and t['s'] not in B.SOFT) or (t['t'] == 'kw' and t['s'] in ('TRUE', 'FALSE'))
+
+
+def gentle(ts, rng):
+    """one edit that often keeps the text a statement but changes what it means (other operator, other operand, a pair of
+    parentheses more or less, a unary operator more)"""
+    ts = list(ts)
+    r = rng.random()
+    ops = [i for i, t in enumerate(ts) if _is_op(t)]
+    atoms = [i for i, t in enumerate(ts) if _is_atom(t)]
+    opens = [i for i, t in enumerate(ts) if t['t'] == 'p' and t['s'] == '(']
+    if r < 0.3 and ops:
+        ts[rng.choice(ops)] = rng.choice(_OPS)
+    elif r < 0.5 and atoms:
+        ts[rng.choice(atoms)] = rng.choice(_ATOMS)
+    elif r < 0.7 and opens:
+        i = rng.choice(opens)
+        depth = 0
+        for j in range(i, len(ts)):
+            if ts[j]['t'] == 'p' and ts[j]['s'] == '(':
+                depth += 1
+            elif ts[j]['t'] == 'p' and ts[j]['s'] == ')':
+                depth -= 1
+                if depth == 0:
+                    del ts[j]
+                    del ts[i]
+                    break
+    elif r < 0.85 and atoms:
+        i = rng.choice(atoms)
+        ts[i:i + 1] = [B.tok('p', '('), ts[i], B.tok('p', ')')]
+    elif atoms:
+        i = rng.choice(atoms)
+        ts.insert(i, rng.choice([B.tok('p', '-'), B.tok('kw', 'NOT'), B.tok('p', '+'), B.tok('p', '-')]))
+    return ts
+
+
 def mutate(tokens, rng, vocab):
+    if rng.random() < 0.5:
+        ts = gentle(tokens, rng)
+        if rng.random() < 0.3:
+            ts = gentle(ts, rng)
+        return ts
     ts = list(tokens)
     for _ in range(rng.choice([1, 1, 1, 2, 2, 3])):
         if not ts:
@@ -380,7 +433,7 @@ def arbitrary_text(rng):
     if r < 0.45:
         alphabet = ['SELECT', 'select', 'FROM', 'WHERE', 'a', 'b', '1', '2.5', '.5', "'s'", '"t"', '(', ')', ',', '*', '+', '-',
                     '/', '%', '<', '<=', '=', '!=', '~', 'AND', 'OR', 'NOT', 'IN', 'IS', 'NULL', 'BETWEEN', 'GROUP', 'BY',
-                    'ORDER', 'DESC', 'LIMIT', 'PIVOT', 'HAVING', 'AS', 'DISTINCT', 'OPEN', 'ON', 'CLOSE', 'CLEAR', 'AT',
+                    'ORDER', 'DESC', 'ASC', 'LIMIT', 'PIVOT', 'HAVING', 'AS', 'DISTINCT', 'OPEN', 'ON', 'CLOSE', 'CLEAR', 'AT',
                     'BALANCES', 'JOURNAL', 'PRINT', '2020-01-02', '#t', '#', '%s', '%(x)s', '.', '[', ']', ';', '/*', '*/',
                     'TRUE', 'false', 'é', '☃', ' ', '١٢', '\n', '\t', '!', '<>', '1e5', '0x1F', '--', '||', '"', "'"]
         return ''.join(rng.choice(alphabet) + rng.choice(['', ' ', ' ', ' ']) for _ in range(rng.randint(1, 14)))
